@@ -26,4 +26,73 @@ def Cons (kw : Bool) (sw : Nat → Nat) (p : Nat × Nat) : Prop := kw = true ∨
 def ConsIno (kw : Bool) (sw : Nat → Nat) (ino : Inode) : Prop :=
   ∀ p ∈ accesses ino.blocks ino.blocksStart, Cons kw sw p
 
+/-! ### files the library itself wrote, and the three ways to read one -/
+
+/-- the data block with size word `w` stored at `off` holds the `u` bytes `data`: it is sparse (all zero), stored
+raw with exactly `u` bytes, or stored compressed (smaller than `u`) and unpacks to `data` whenever at least `u`
+bytes of room are offered (no decompressor looks at the room beyond checking that the output fits) -/
+def BlockIs (f : File) (unc : Codec) (off w u : Nat) (data : Bytes) : Prop :=
+  (isSparse w = true ∧ data = zeros u) ∨
+  (isSparse w = false ∧ onDisk w ≤ u ∧ ∃ raw, f.readAt off (onDisk w) = .ok raw ∧
+    ((isCompressed w = true ∧ data.length = u ∧ 0 < u ∧ ∀ room, u ≤ room → unc raw room = .ok data) ∨
+     (isCompressed w = false ∧ onDisk w = u ∧ data = raw)))
+
+/-- the block list `ws` starting at `off` holds the first bytes of a file of which `rem` bytes are still to come,
+block by block (`datas`): every block is full (`bs` bytes) except that the last may hold the short rest -/
+def BlocksAre (f : File) (unc : Codec) (bs : Nat) : List Nat → Nat → Nat → List Bytes → Prop
+  | [], _, _, ds => ds = []
+  | w :: ws, off, rem, ds =>
+    ∃ d rest, ds = d :: rest ∧ 0 < rem ∧ BlockIs f unc off w (if rem < bs then rem else bs) d ∧
+      BlocksAre f unc bs ws (off + onDisk w) (rem - (if rem < bs then rem else bs)) rest
+
+/-- **an inode and its data as the library writes them** (block processor + fragment table): the blocks hold
+`datas`, and what is left after them (`tail`, shorter than a block) lies in the fragment block the inode names -/
+structure Written (f : File) (unc : Codec) (bs : Nat) (tbl : List (Nat × Nat)) (ino : Inode) (datas : List Bytes) (tail : Bytes) : Prop where
+  bsPos : 0 < bs
+  /-- `block_size` is a `sqfs_u32` -/
+  bsU32 : bs < 4294967296
+  /-- one positional read may ask for the whole file (`size` is a `sqfs_u32` capped at 0x7FFFFFFE) -/
+  small : ino.fileSize ≤ 2147483646
+  blocks : BlocksAre f unc bs ino.blocks ino.blocksStart ino.fileSize datas
+  covered : (datas.map List.length).sum ≤ ino.fileSize
+  tailLen : tail.length = ino.fileSize - (datas.map List.length).sum
+  tailShort : tail.length < bs
+  frag : tail ≠ [] → ∃ ent fb, tbl[ino.fragIdx]? = some ent ∧ getBlock f unc ent.1 ent.2 bs = .ok fb ∧
+    ino.fragOff + tail.length ≤ fb.2 ∧ fb.2 ≤ bs ∧ tail = (fb.1.drop ino.fragOff).take tail.length
+
+/-- the first `n` blocks through `sqfs_data_reader_get_block`, concatenated; the first error wins -/
+def catBlocks (f : File) (unc : Codec) (bs : Nat) (ino : Inode) : Nat → Except Status Bytes
+  | 0 => .ok []
+  | n + 1 =>
+    match catBlocks f unc bs ino n with
+    | .error e => .error e
+    | .ok a =>
+      match getBlockApi f unc bs ino n with
+      | .error e => .error e
+      | .ok b => .ok (a ++ b)
+
+/-- a whole file through per-block access: `get_block` for every index, then `get_fragment` -/
+def viaBlocks (f : File) (unc : Codec) (bs : Nat) (tbl : List (Nat × Nat)) (ino : Inode) : Except Status Bytes :=
+  match catBlocks f unc bs ino ino.blocks.length with
+  | .error e => .error e
+  | .ok a =>
+    match getFragmentSpec f unc bs tbl ino with
+    | .error e => .error e
+    | .ok t => .ok (a ++ t)
+
+/-- model-only: fuel of the stream loop exhausted -/
+def streamFuelSt : Status := 1003
+
+/-- a whole file through a stream: `get_buffered_data`, take everything, `advance_buffer`, until the end -/
+def streamAllGo (f : File) (unc : Codec) (bs : Nat) (tbl : List (Nat × Nat)) : Nat → Stream → Bytes → Except Status Bytes
+  | 0, _, _ => .error streamFuelSt
+  | n + 1, s, acc =>
+    match streamGetSpec true f unc bs tbl s with
+    | (.eof, _) => .ok acc
+    | (.err e, _) => .error e
+    | (.data b, s') => streamAllGo f unc bs tbl n (streamAdvance s' b.length) (acc ++ b.filterMap id)
+
+def viaStream (f : File) (unc : Codec) (bs : Nat) (tbl : List (Nat × Nat)) (ino : Inode) : Except Status Bytes :=
+  streamAllGo f unc bs tbl (ino.blocks.length + 2) (streamOpen bs ino) []
+
 end Sqfs.DataReader
